@@ -284,3 +284,22 @@ func init() {
 		}
 	}
 }
+
+func init() {
+	dumpers["fnfps"] = func(p *Prog, m *Model) {
+		fmt.Println("# function (raw short name)\tfingerprint of its body (see fnFingerprint); regenerate with bin/nscheck -dump fnfps after every audited change of /repo")
+		var names []string
+		fps := map[string]string{}
+		for _, f := range p.ModFuncs {
+			if f.Parent() == nil && len(f.Blocks) > 0 && f.Synthetic == "" {
+				n := shortName(f)
+				names = append(names, n)
+				fps[n] = fnFingerprint(f)
+			}
+		}
+		sort.Strings(names)
+		for _, n := range names {
+			fmt.Printf("%s\t%s\n", n, fps[n])
+		}
+	}
+}
